@@ -37,8 +37,8 @@ KERNELS = [
       bounds=c03.B_W, split=(0, 8), timeout=200),
     K("c03::k_posix_us_next", pre=c03.YEAR_OK,
       claims=[("next_transition(t) = the earliest rule transition strictly after t, with the offset/DST flag in force from it", next_claim)],
-      bounds=c03.B_T, split=(0, 128), timeout=900, tier="thorough"),
+      bounds=c03.B_T, split=(0, 128), timeout=900, tier="deep"),
     K("c03::k_posix_us_prev", pre=c03.YEAR_OK,
       claims=[("previous_transition(t) = the latest rule transition strictly before t", prev_claim)],
-      bounds=c03.B_T, split=(0, 128), timeout=900, tier="thorough"),
+      bounds=c03.B_T, split=(0, 128), timeout=900, tier="deep"),
 ]
